@@ -48,7 +48,8 @@ LOGFLAGS_QUICK = [0x1, 0x61, 0x0]
 LOGFLAGS_THOROUGH = [0x1, 0x61, F_ALL, 0x0]
 ASSUMPTIONS = [
     "cases = accepted cases of the C01 / C02 sweeps with at most one deviation from the default instantiation (finite alphabets "
-    "of lib/x86cases.py / lib/a64cases.py)",
+    "of lib/x86cases.py / lib/a64cases.py), plus (x86) the default memory operand given as [label] / [label+16] with a bound and "
+    "with a forward (unbound) label",
     "format flag sets: quick = none, each single flag, kHexImms|kHexOffsets, all; thorough = all 256 subsets of the 8 flag bits",
     "a register id without an architectural name (accepted only through known C01/C02 defects) is not judged for its name",
     "memory sizes without an Intel keyword (m14/m28/m94/m108/m512...) may be printed without a size",
@@ -416,7 +417,7 @@ def x86_cmp_mem(m, pm, ctx, where, out, stats, with_bcst=True):
             out.append(("scale", "%s: scale %d given, the text says %d" % (where, 1 << m.shift, pm.scale), None))
     # displacement
     gd = m.disp
-    if (pm.disp - gd) & P.MASK64:
+    if (pm.disp - gd) & (P.MASK64 if ctx.mode == 64 else 0xFFFFFFFF):      # addresses wrap at the mode's address width
         out.append(("disp", "%s: displacement %d (%#x) given, the text says %d (%#x)" % (where, gd, gd & P.MASK64, pm.disp, pm.disp & P.MASK64), None))
     if with_bcst and pm.bcst != m.bcst:
         out.append(("broadcast", "%s: broadcast %s given, the text says %s" % (where, "{1to%d}" % m.bcst if m.bcst else "none", "{1to%d}" % pm.bcst if pm.bcst else "none"), None))
@@ -966,6 +967,25 @@ def _pack(out):
                 forms_accepted=sorted(out.forms_accepted), unparse=out.unparse_samples, rt_rejected=out.rt_rejected)
 
 
+def label_memory_cases(c):
+    """C20's own addition to the C01 alphabet (the C01 memory alphabet has no label bases): every plain base-register memory
+    operand of a default instantiation is also given as [label] / [label+16], with the label bound before the instruction
+    and as a forward reference (unbound when the instruction is emitted and logged)."""
+    if c.pre or c.post:
+        return
+    for i, o in enumerate(c.ops):
+        if o[0] != "m":
+            continue
+        m = o[1]
+        if not isinstance(m.base, tuple) or m.base[0] not in ("r32", "r64") or m.index is not None or m.bcst or m.seg:
+            continue
+        for tag, pre, post in (("bound", ("bind=0", "pad=16"), ()), ("fwd", (), ("pad=16", "bind=0"))):
+            for d in (0, 16):
+                ops = list(c.ops)
+                ops[i] = ("m", m.replace(base=("label", 0), disp=d))
+                yield X.Case(c.mode, c.name, c.opts, c.extra, ops, pre, post, c.form, "%s,op%d=label-%s%+d" % (c.dev, i, tag, d), c.sig)
+
+
 def x86_cases_of(names, known_names, by_name, stride, cnt):
     cases = []
     seen = set()
@@ -978,6 +998,7 @@ def x86_cases_of(names, known_names, by_name, stride, cnt):
             cnt["forms_instantiated"] += 1
             for mode in f["modes"]:
                 cs = []
+                extra = []
                 for c in X.instantiate(f, mode, k=1):
                     key = c.key()
                     if key in seen:
@@ -985,7 +1006,15 @@ def x86_cases_of(names, known_names, by_name, stride, cnt):
                         continue
                     seen.add(key)
                     cs.append(c)
+                    if c.dev == "default" or c.dev.endswith("=mem-default"):
+                        for c2 in label_memory_cases(c):
+                            key = c2.key()
+                            if key not in seen:
+                                seen.add(key)
+                                extra.append(c2)
+                cnt["label_memory_cases"] += len(extra)
                 cases.extend(thin(cs, stride))
+                cases.extend(extra)
     return cases
 
 
@@ -1029,6 +1058,10 @@ def x86_run_cases(cases, out, wd, exe, flags, logflags, tier, by_name=None):
                 not c.pre and not c.post and not any(o[0] == "l" or (o[0] == "m" and isinstance(o[1].base, tuple) and o[1].base[0] == "label") for o in c.ops):
             if any(o[0] == "m" and 1 <= o[1].seg <= 4 for o in c.ops):
                 out.cnt["roundtrip_redundant_segment_override_not_judged"] += 1      # gas drops / refuses es cs ss ds overrides
+            elif c.name in X.GAS_MNEMONIC or X.semantic_canon(c) is not c:
+                # iret/popf/pushf/popa/pusha name the 16-bit forms in the manuals (and in asmjit) but the default size in gas;
+                # `ret 0` is encoded as the plain `ret` (same instruction, see lib/x86cases.semantic_canon)
+                out.cnt["roundtrip_dialect_difference_not_judged"] += 1
             else:
                 rt_items[c.mode].append((c, bytes.fromhex(rec.hex), t0, emit, rp))
     if crash is not None:
